@@ -146,6 +146,7 @@ func groupEntries(iter *entryIterator) (s lokiapi.Streams, _ error) {
 	}
 
 	result := maps.Values(streams)
+	result = verifOrderStreams(result)
 	for _, stream := range result {
 		slices.SortFunc(stream.Values, func(a, b lokiapi.LogEntry) int {
 			return cmp.Compare(a.T, b.T)
